@@ -40,8 +40,8 @@ CONSTANTS
   GridBox,    \* <<x0, y0, x1, y1>> of the tile grid, origin upper left  (lattice units)
   GridRes,    \* <<units per pixel at level 0, level 1, ...>>
   TileSize,   \* <<tw, th>> pixels
-  CombineTileLimits,  \* FALSE: the code as found (tile services: the layer's limited_to, ELSE the request's)
-                      \* TRUE : candidate repair (both are applied)
+  CombineChoices,     \* {FALSE}: the code as found (tile services: the layer's limited_to, ELSE the request's)
+                      \* {TRUE} : candidate repair (both are applied);  BOOLEAN: either (trace validation)
   \* the universe explored by the model checker (unused by the trace specification)
   Requests, AuthKinds, PermOpts, LimIds, GlobIds, EntryNames
 
@@ -53,9 +53,11 @@ VARIABLES
   authz,   \* wms: what authorized_layers returned: [all |-> PERMIT_ALL_LAYERS?, lims |-> [name -> geometry id | "none"]]
   cov,     \* the request-wide / tile coverage: set of geometry ids ({} = none)
   out,     \* the response (and the upstream requests made for it)
-  path     \* names of the actions taken (history, for the coverage guard of the harness)
+  path,    \* names of the actions taken (history, for the coverage guard of the harness)
+  geo,     \* the geometry table in force (never changes; = GeomTab when model checking, the event's table in traces)
+  combine  \* the variant of authorize_tile_layer in force (never changes)
 
-vars == <<req, cb, pc, actual, authz, cov, out, path>>
+vars == <<req, cb, pc, actual, authz, cov, out, path, geo, combine>>
 
 ---------------------------------------------------------------------------
 Range(s) == {s[i] : i \in DOMAIN s}
@@ -95,7 +97,7 @@ FarOutside(g, p, d2) == \A c \in g.cells : D2(p, Rect(g, c)) > d2
 FarInside(g, p, d2)  == \A c \in Cells(g) \ g.cells : D2(p, Rect(g, c)) > d2
 
 Class(id, p, one2) ==
-  LET g == GeomTab[id] IN
+  LET g == geo[id] IN
   IF FarOutside(g, p, one2) THEN "out" ELSE IF FarInside(g, p, one2) THEN "in" ELSE "band"
 ClassSet(ids, p, one2) ==
   IF ids = {} THEN "in"
@@ -103,14 +105,14 @@ ClassSet(ids, p, one2) ==
        IF \E id \in ids : cl[id] = "out" THEN "out"
        ELSE IF \A id \in ids : cl[id] = "in" THEN "in" ELSE "band"
 PointClass(id, p) ==
-  LET g == GeomTab[id] IN
+  LET g == geo[id] IN
   IF FarOutside(g, p, 0) THEN "out" ELSE IF FarInside(g, p, 0) THEN "in" ELSE "edge"
 
 Overlap(a, b) == Max(0, Min(a[3], b[3]) - Max(a[1], b[1])) * Max(0, Min(a[4], b[4]) - Max(a[2], b[2]))
 Touches(a, b) == a[1] <= b[3] /\ b[1] <= a[3] /\ a[2] <= b[4] /\ b[2] <= a[4]
-Contains(id, r) == LET g == GeomTab[id] IN \A c \in Cells(g) \ g.cells : Overlap(Rect(g, c), r) = 0
-IntersectsOpen(id, r) == LET g == GeomTab[id] IN \E c \in g.cells : Overlap(Rect(g, c), r) > 0
-IntersectsClosed(id, r) == LET g == GeomTab[id] IN \E c \in g.cells : Touches(Rect(g, c), r)
+Contains(id, r) == LET g == geo[id] IN \A c \in Cells(g) \ g.cells : Overlap(Rect(g, c), r) = 0
+IntersectsOpen(id, r) == LET g == geo[id] IN \E c \in g.cells : Overlap(Rect(g, c), r) > 0
+IntersectsClosed(id, r) == LET g == geo[id] IN \E c \in g.cells : Touches(Rect(g, c), r)
 
 \* request geometry: box = <<x0, y0, rx, ry, w, h>> in lattice units (x0, y0: lower left corner; rx, ry: units per pixel)
 TileBox(t) ==
@@ -155,7 +157,7 @@ Collect(acc, ls, prune) ==
 
 \* wms.py:107-117 (map) / :212-219 (featureinfo)
 CollectLayers ==
-  /\ path' = Append(path, "CollectLayers")
+  /\ UNCHANGED <<geo, combine>> /\ path' = Append(path, "CollectLayers")
   /\ pc = "start" /\ req.f \in {"wms.map", "wms.fi"}
   /\ actual' = Collect(<<>>, req.ls, req.f = "wms.map")
   /\ pc' = "authorize"
@@ -166,7 +168,7 @@ Flag(f) == CASE f \in {"wms.map", "wms.caps"} -> "map"
              [] f \in {"wms.fi", "wmts.fi.kvp", "wmts.fi.rest"} -> "featureinfo"
              [] OTHER -> "tile"
 CallAuthorize ==
-  /\ path' = Append(path, "CallAuthorize")
+  /\ UNCHANGED <<geo, combine>> /\ path' = Append(path, "CallAuthorize")
   /\ pc = "authorize" /\ req.f \in {"wms.map", "wms.fi"}
   /\ IF cb.authorized = "unauthenticated"
        THEN /\ out' = Error(401) /\ pc' = "done" /\ UNCHANGED <<authz, cov>>
@@ -183,7 +185,7 @@ CallAuthorize ==
 \* WMSServer.filter_actual_layers: explicitly requested and not authorized -> 403, implicitly (member of a requested
 \* group) -> dropped; authorized with limited_to -> wrapped in LimitedLayer (kept in authz.lims)
 FilterActualLayers ==
-  /\ path' = Append(path, "FilterActualLayers")
+  /\ UNCHANGED <<geo, combine>> /\ path' = Append(path, "FilterActualLayers")
   /\ pc = "filter"
   /\ IF authz.all THEN /\ pc' = "render" /\ UNCHANGED <<actual, out>>
      ELSE IF \E n \in Range(actual) : n \notin DOMAIN authz.lims /\ n \in req.expl
@@ -206,7 +208,7 @@ PixelAllowed(b, i, j) ==
   IN IF gc = "out" THEN {"dark"} ELSE IF gc = "band" THEN shown \cup under \cup {"dark"} ELSE shown \cup under
 
 RenderAndMerge ==
-  /\ path' = Append(path, "RenderAndMerge")
+  /\ UNCHANGED <<geo, combine>> /\ path' = Append(path, "RenderAndMerge")
   /\ pc = "render" /\ req.f = "wms.map"
   /\ LET b == req.box IN
      out' = [NoOut EXCEPT !.status = 200, !.ups_must = Range(actual), !.ups_may = Range(actual),
@@ -217,7 +219,7 @@ RenderAndMerge ==
 \* wms.py:226-238 + LimitedLayer.get_info: the query point is the upper left corner of pixel (I, J);
 \* GeomCoverage.contains(point) is true in the interior only; exactly on the boundary both answers are accepted
 InfoGate ==
-  /\ path' = Append(path, "InfoGate")
+  /\ UNCHANGED <<geo, combine>> /\ path' = Append(path, "InfoGate")
   /\ pc = "render" /\ req.f = "wms.fi"
   /\ LET pt == Corner(req.box, req.pos[1], req.pos[2])
          gcl == IF cov = {} THEN "in" ELSE PointClass(CHOOSE id \in cov : TRUE, pt)
@@ -249,7 +251,7 @@ Listed(n, lvl) ==    \* lvl = "must": certainly listed, "may": possibly listed
   ELSE ok(n)
 
 WmsCapabilities ==
-  /\ path' = Append(path, "WmsCapabilities")
+  /\ UNCHANGED <<geo, combine>> /\ path' = Append(path, "WmsCapabilities")
   /\ pc = "start" /\ req.f = "wms.caps"
   /\ out' = IF cb.authorized = "unauthenticated" THEN Error(401)
             ELSE IF cb.authorized = "full" THEN [NoOut EXCEPT !.status = 200, !.list_must = WmsNames, !.list_may = WmsNames]
@@ -263,7 +265,7 @@ WmsCapabilities ==
 \* ---------------------------------------------------------------------------------------------------------
 \* tile services: TileServer / KMLServer / WMTSServer .authorize_tile_layer
 TileAuthorize ==
-  /\ path' = Append(path, "TileAuthorize")
+  /\ UNCHANGED <<geo, combine>> /\ path' = Append(path, "TileAuthorize")
   /\ pc = "start" /\ IsTileReq(req.f)
   /\ LET key == Flag(req.f) IN
      IF cb.authorized = "unauthenticated" THEN /\ out' = Error(401) /\ pc' = "done" /\ UNCHANGED cov
@@ -271,14 +273,14 @@ TileAuthorize ==
      ELSE IF HasEntry(req.lay) /\ Entry(req.lay)[key]
        THEN /\ cov' = LET l == IF Entry(req.lay).lim = NONE THEN {} ELSE {Entry(req.lay).lim}
                           g == IF cb.glob = NONE THEN {} ELSE {cb.glob}
-                      IN IF CombineTileLimits THEN l \cup g ELSE IF l # {} THEN l ELSE g
+                      IN IF combine THEN l \cup g ELSE IF l # {} THEN l ELSE g
             /\ pc' = "tile" /\ UNCHANGED out
      ELSE /\ out' = Error(403) /\ pc' = "done" /\ UNCHANGED cov
   /\ UNCHANGED <<req, cb, actual, authz>>
 
 \* TileLayer.render: coverage.contains(tile_bbox) -> as is; .intersects -> masked; else empty_response (no upstream)
 TileRender ==
-  /\ path' = Append(path, "TileRender")
+  /\ UNCHANGED <<geo, combine>> /\ path' = Append(path, "TileRender")
   /\ pc = "tile" /\ req.f \in {"tms", "kml", "wmts.kvp", "wmts.rest"}
   /\ LET b == TileBox(req.tile)
          r == BoxRect(b)
@@ -302,7 +304,7 @@ TileRender ==
 
 \* WMTSServer.featureinfo: wmts.py:133-140
 TileInfoGate ==
-  /\ path' = Append(path, "TileInfoGate")
+  /\ UNCHANGED <<geo, combine>> /\ path' = Append(path, "TileInfoGate")
   /\ pc = "tile" /\ req.f \in {"wmts.fi.kvp", "wmts.fi.rest"}
   /\ LET pt == Corner(TileBox(req.tile), req.pos[1], req.pos[2])
          cls == {PointClass(id, pt) : id \in cov}
@@ -314,7 +316,7 @@ TileInfoGate ==
 
 \* KMLServer.kml (super overlay document), TileServer.tms_capabilities for one layer: authorization only
 TileDocument ==
-  /\ path' = Append(path, "TileDocument")
+  /\ UNCHANGED <<geo, combine>> /\ path' = Append(path, "TileDocument")
   /\ pc = "tile" /\ req.f \in {"kml.doc", "tms.layer"}
   /\ out' = [NoOut EXCEPT !.status = 200, !.list_must = {req.lay}, !.list_may = {req.lay}]
   /\ pc' = "done"
@@ -322,7 +324,7 @@ TileDocument ==
 
 \* TileServer / WMTSServer .authorized_tile_layers
 TileCapabilities ==
-  /\ path' = Append(path, "TileCapabilities")
+  /\ UNCHANGED <<geo, combine>> /\ path' = Append(path, "TileCapabilities")
   /\ pc = "start" /\ req.f \in {"tms.caps", "wmts.caps"}
   /\ out' = IF cb.authorized = "unauthenticated" THEN Error(401)
             ELSE IF cb.authorized = "full" THEN [NoOut EXCEPT !.status = 200, !.list_must = TileLayers, !.list_may = TileLayers]
@@ -346,6 +348,7 @@ CBs == {[authorized |-> a, layers |-> <<>>, glob |-> g] : a \in AuthKinds \ {"pa
 Init ==
   /\ req \in Requests /\ cb \in CBs
   /\ pc = "start" /\ actual = <<>> /\ authz = [all |-> FALSE, lims |-> <<>>] /\ cov = {} /\ out = NoOut /\ path = <<>>
+  /\ geo = GeomTab /\ combine \in CombineChoices
 
 Spec == Init /\ [][Next]_vars
 
@@ -403,6 +406,7 @@ StatusOK == Done => /\ out.status \in {200, 401, 403}
 
 TypeOK == /\ pc \in {"start", "authorize", "filter", "render", "tile", "done"}
           /\ Range(actual) \subseteq WmsNames
+          /\ \A id \in DOMAIN geo : WellFormed(geo[id])
 NoStuck == ~Done => ENABLED Next
 
 \* observation (not part of C10): an allowed layer that the unrestricted request would NOT show because it lies below
